@@ -117,11 +117,89 @@ def run_random(res, prop, count, work):
     return c
 
 
+DIFF_CFG = """
+INIT Init
+NEXT Next
+INVARIANT Emit
+"""
+
+
+def run_textfuzz(res, prop, tier, work):
+    """Text-level path with fuzz: hunks that diff derives (so their cores may contain interior context lines) are
+    rendered as patch text, the file is perturbed in an outer context line (or shifted), and the real parser + apply
+    run at fuzz limits 0..2; every observation is judged by TLC (Val_Hunks) against the C02 relation and C03's
+    Reconstruct.  This binds the parser's prefix/suffix context counting to the placement rules."""
+    import render, random
+    rnd = random.Random(seed())
+    out = os.path.join(work, 'diff.tlc')
+    consts = {'Sym': '{"a","b"}', 'MaxOps': 5 if tier == 'quick' else 6, 'MaxChanges': 3, 'MaxCtx': 2, 'EmitCases': 'TRUE', 'WithNoEol': 'FALSE'}
+    st = tlc('MC_Diff', constants=consts, cfg_body=DIFF_CFG, out=out, tag='textfuzz')
+    res.add_tlc(st, 'textfuzz/MC_Diff')
+    cases = list(tlc_json_lines(out))
+    os.unlink(out)
+    jobs, recs = [], []
+    for ci, case in enumerate(cases):
+        for c in (1, 2):
+            hs = case['canon'][c]
+            if not hs:
+                continue
+            if len(hs) == 1 and not hs[0]['pre'] and not hs[0]['post'] and (not hs[0]['del'] or not hs[0]['ins']):
+                continue            # a creation / deletion (or the context-free top-of-file shape), not a Modify patch
+            plain = [{'pre': h['pre'], 'del': h['del'], 'ins': h['ins'], 'post': h['post'], 'os': h['os'], 'ns': h['ns']} for h in hs]
+            # perturbations of A: corrupt one outer context line of one hunk / prepend a line / both
+            A = list(case['A'])
+            variants = []
+            for hi, h in enumerate(hs):
+                if h['pre']:
+                    B = list(A); B[h['os']] = 'z'; variants.append(B)
+                if h['post']:
+                    B = list(A); B[h['os'] + len(h['pre']) + len(h['del']) + len(h['post']) - 1] = 'z'; variants.append(B)
+            variants.append(['a'] + A)
+            if variants and len(variants) > 1:
+                variants.append(['b'] + variants[0])
+            body = b''.join(render.hunk_text(h, 0) for h in hs)
+            patch = b'--- a/f\n+++ b/f\n' + body
+            for F in variants[:4]:
+                for lim in (0, 1, 2):
+                    jobs.append({'id': len(jobs), 'a': render.file_bytes(F, 0).hex(), 'patch': patch.hex(), 'strip': 1, 'reverse': False, 'fuzz': lim})
+                    recs.append({'F': F, 'hs': plain, 'lim': lim})
+    if tier == 'quick' and len(jobs) > 60000:
+        keep = sorted(rnd.sample(range(len(jobs)), 60000))
+        jobs = [dict(jobs[i], id=k) for k, i in enumerate(keep)]; recs = [recs[i] for i in keep]
+    inp = '\n'.join(json.dumps(j) for j in jobs) + '\n'
+    obs = {}
+    for line in rqh(['textapply'], stdin=inp).splitlines():
+        r = json.loads(line); obs[r['id']] = r
+    recfile = os.path.join(work, 'textfuzz.ndjson')
+    n = 0
+    with open(recfile, 'w') as f:
+        for j, rec in zip(jobs, recs):
+            o = obs.get(j['id'], {'status': 'missing'})
+            if o.get('status') == 'panic':
+                outl, rep = ['PANIC'], []
+            elif o.get('status') != 'ok':
+                res.violation('textfuzz-parse', 'a rendered diff is not parsed: %s' % o.get('status'), {'patch': bytes.fromhex(j['patch']).decode('latin-1')}) if prop == 'C03' else None
+                continue
+            else:
+                data = bytes.fromhex(o['out']) if o['out'] is not None else b''
+                outl = [l.decode('latin-1') for l in data.split(b'\n')[:-1]]
+                rep = [{'ok': r[0], 'line': r[1], 'fuzz': r[3]} for r in o['reports']]
+                if len(rep) != len(rec['hs']):
+                    continue
+            n += 1
+            f.write(json.dumps({'id': n, 'F': rec['F'], 'hs': rec['hs'], 'dir': 'F', 'lim': rec['lim'], 'rep': rep, 'out': outl, 'why': 'text-level fuzz'}) + '\n')
+    res.cov['parts']['textfuzz'] = {'diff_cases': len(cases), 'observations': n}
+    res.cov['evaluations'] += n
+    if OWN[prop]['verdict']:
+        validate_records(res, prop, recfile, 'textfuzz', n)
+    return n
+
+
 PLAN = {
     # property -> tier -> list of (module, tag, constants)
     'C02': {
         'quick': [('MC_Place', 'blind-1hunk', place_consts()),
-                  ('MC_Der', 'derived-2hunk-err-corrupt', der_consts(maxfile=3, maxerr=1, corrupt='TRUE', maxlimit=2))],
+                  ('MC_Der', 'derived-2hunk-err-corrupt', der_consts(maxfile=3, maxctx=1, maxerr=1, corrupt='TRUE', maxlimit=2))],
         'thorough': [('MC_Place', 'blind-1hunk', place_consts(maxfile=4, maxlimit=3)),
                      ('MC_Place', 'blind-1hunk-abc', place_consts(sym='{"a","b","c"}', maxfile=3, maxctx=1)),
                      ('MC_Der', 'derived-2hunk-err-corrupt', der_consts(maxfile=4, maxerr=1, corrupt='TRUE', maxlimit=2)),
@@ -129,7 +207,7 @@ PLAN = {
     },
     'C03': {
         'quick': [('MC_Der', 'derived-2hunk', der_consts()),
-                  ('MC_Der', 'derived-3hunk', der_consts(maxfile=3, maxctx=1, nhunks=3))],
+                  ('MC_Der', 'derived-3hunk', der_consts(maxfile=3, maxctx=1, maxins=0, nhunks=3))],
         'thorough': [('MC_Der', 'derived-2hunk', der_consts(maxfile=5)),
                      ('MC_Der', 'derived-2hunk-del2', der_consts(maxfile=4, maxdel=2, maxerr=1)),
                      ('MC_Der', 'derived-3hunk', der_consts(maxfile=4, maxctx=1, nhunks=3))],
@@ -196,6 +274,8 @@ def check(prop, tier):
         for module, tag, consts in PLAN[prop][tier]:
             run_model(res, prop, module, consts, tag, work)
         run_random(res, prop, RANDOM[tier], work)
+        if prop in ('C02', 'C03'):
+            run_textfuzz(res, prop, tier, work)
         if prop == 'C04':
             for tag, consts in KINDS[tier]:
                 run_kinds(res, tag, consts, work)
